@@ -10,7 +10,12 @@ import ast
 
 from . import termination
 
-EXEC = {"eval", "exec", "compile"}
+# evaluation of text / data as code: eval & co, and the deserialisers that import and call whatever their input names
+EXEC = {"eval", "exec", "compile", "builtins.eval", "builtins.exec", "builtins.compile",
+        "pickle.loads", "pickle.load", "pickle.Unpickler", "_pickle.loads", "_pickle.load", "cPickle.loads", "cPickle.load",
+        "marshal.loads", "marshal.load", "shelve.open", "dill.loads", "dill.load", "cloudpickle.loads", "cloudpickle.load",
+        "jsonpickle.decode", "yaml.load", "yaml.unsafe_load", "yaml.full_load", "yaml.load_all", "code.interact", "code.InteractiveInterpreter",
+        "types.FunctionType", "types.CodeType", "ctypes.CDLL", "ctypes.cdll.LoadLibrary"}
 IMPORT_DYN = {"importlib.import_module", "__import__", "importlib.__import__"}
 IMPORT_PARENT = {"importlib.util.find_spec", "importlib.util.spec_from_file_location", "importlib.util.module_from_spec", "pkgutil.find_loader", "runpy.run_path", "runpy.run_module"}
 FS_WRITE = {
